@@ -59,6 +59,10 @@ func genProgram(t *rapid.T, px string) gobatch.Program {
 		for _, id := range findingIDs {
 			avoid[id] = rec.Known(id)
 		}
+		// development only: generate the shape of a known finding anyway (to try a fix patch)
+		for _, id := range strings.Split(os.Getenv("C06_DEV_NOAVOID"), ",") {
+			delete(avoid, id)
+		}
 	}
 	return generate(t, px, avoid)
 }
@@ -77,7 +81,7 @@ func countExcluded(p gobatch.Program) string {
 }
 
 func TestCallsAndClosures(t *testing.T) {
-	n := rec.Scale(250, 2500)
+	n := rec.Scale(250, 1000)
 	if v, err := strconv.Atoi(os.Getenv("C06_DEV_N")); err == nil && v > 0 {
 		n = v // development only
 	}
